@@ -74,6 +74,30 @@ Proof.
 Qed.
 Print Assumptions C12_best_is_heaviest_valid.
 
+(* Orphans: "every delivered valid block whose parent is connected gets
+   connected" is FALSE of the code when an invalid sibling is in the pool:
+   ProcessOrphans returns at the first orphan that fails and never looks at
+   the later ones again.  Witness: 2 (invalid) and 3 (valid) are children of
+   1 and arrive first; when 1 arrives, 2 fails on the tip and 3 stays in the
+   pool; delivering 3 again is answered "already have block (orphan)".
+   Replayed by harness/cmd/c12 (corpus case "invalid-on-tip-and-orphan-sibling");
+   recorded in known_findings.jsonl.  (The pool entry expires after one hour
+   of wall-clock time in the Go code; the model has no clock.) *)
+Theorem C12_orphans_eventually_connected_refuted :
+  exists p bs o,
+    let s := run p init bs in
+    In o bs /\ (b_valid o = true) /\ (sane_ok o = true) /\
+    (main_ids s = (b_parent o :: 0%N :: nil)) /\ (b_height o = tip_height s + 1) /\
+    In o (orphans s) /\ (block_exists s (b_id o) = false).
+Proof.
+  exists (mkParams 1000 2000 10).
+  exists [mkBlock 2 1 2 1 true false false false; mkBlock 3 1 2 1 true true false false;
+          mkBlock 1 0 1 1 true true false false; mkBlock 3 1 2 1 true true false false].
+  exists (mkBlock 3 1 2 1 true true false false).
+  vm_compute. repeat split; auto.
+Qed.
+Print Assumptions C12_orphans_eventually_connected_refuted.
+
 (* Every block is indexed at most once, whatever is delivered (the
    BlockExists / orphan-pool checks are sufficient). *)
 Theorem C12_index_unique : forall p bs,
